@@ -932,6 +932,124 @@ const commonRule = "registry of %d calls forms of every exported slice/map helpe
 	"argument a view/in-place result shares storage with. Panics (Chunk size <= 0, Zip/Unzip non-square, SliceToMap unequal lengths) are recovered: no result, arguments still compared. " +
 	"Mean/Min/Max are not called on an empty slice. String helpers are vacuous here (Go strings are immutable) and not exercised. "
 
+// ---------------------------------------------------------------------------
+// string helpers: a string result is never altered by a later call (a Go string is immutable only as long as the
+// library does not build it over memory it reuses)
+
+// StrCall: helper index into strHelpers; S and T index into strInputs / strTokens; N a size/offset.
+type StrCall struct {
+	H int `json:"h"`
+	S int `json:"s"`
+	T int `json:"t"`
+	N int `json:"n"`
+}
+
+type StrCase struct {
+	Calls []StrCall `json:"calls"`
+}
+
+var strInputs = []string{"item-000", "ab", "", "héllo wörld", "foo bar_baz", "*x*", "A"}
+var strTokens = []string{"*", "-", "ab", "é"}
+
+type strHelper struct {
+	name string
+	call func(s, tok string, n int) []string
+}
+
+func one(s string) []string { return []string{s} }
+
+var strHelpers = []strHelper{
+	{"Wrap", func(s, t string, n int) []string { return one(gogu.Wrap(s, t)) }},
+	{"WrapAllRune", func(s, t string, n int) []string { return one(gogu.WrapAllRune(s, t)) }},
+	{"Unwrap", func(s, t string, n int) []string { return one(gogu.Unwrap(s, t)) }},
+	{"Pad", func(s, t string, n int) []string { return one(gogu.Pad(s, len(s)+n, t)) }},
+	{"PadLeft", func(s, t string, n int) []string { return one(gogu.PadLeft(s, len(s)+n, t)) }},
+	{"PadRight", func(s, t string, n int) []string { return one(gogu.PadRight(s, len(s)+n, t)) }},
+	{"Substr", func(s, t string, n int) []string { return one(gogu.Substr(s, n%3, len(s))) }},
+	{"ToLower", func(s, t string, n int) []string { return one(gogu.ToLower(s)) }},
+	{"ToUpper", func(s, t string, n int) []string { return one(gogu.ToUpper(s)) }},
+	{"Capitalize", func(s, t string, n int) []string { return one(gogu.Capitalize(s)) }},
+	{"CamelCase", func(s, t string, n int) []string { return one(gogu.CamelCase(s)) }},
+	{"SnakeCase", func(s, t string, n int) []string { return one(gogu.SnakeCase(s)) }},
+	{"KebabCase", func(s, t string, n int) []string { return one(gogu.KebabCase(s)) }},
+	{"ReverseStr", func(s, t string, n int) []string { return one(gogu.ReverseStr(s)) }},
+	{"SplitAtIndex", func(s, t string, n int) []string { return gogu.SplitAtIndex(s, n) }},
+}
+
+func (c StrCall) norm() StrCall {
+	m := func(v, n int) int { return ((v % n) + n) % n }
+	return StrCall{H: m(c.H, len(strHelpers)), S: m(c.S, len(strInputs)), T: m(c.T, len(strTokens)), N: m(c.N, 6)}
+}
+
+func (c StrCall) String() string {
+	c = c.norm()
+	return fmt.Sprintf("%s(%q, tok %q, n %d)", strHelpers[c.H].name, strInputs[c.S], strTokens[c.T], c.N)
+}
+
+func strEnum(s pbt.Src, thorough bool) StrCase {
+	// every ordered pair of helpers on the same input and token (quick: input x token x 2 sizes; thorough: a third call too)
+	n := 2
+	if thorough {
+		n = 3
+	}
+	in, tok, sz := s.Intn(len(strInputs)), s.Intn(len(strTokens)), s.Intn(2)*3
+	calls := pbt.Seq(s, n, n, func(s pbt.Src) StrCall { return StrCall{H: s.Intn(len(strHelpers)), S: in, T: tok, N: sz} })
+	return StrCase{Calls: calls}
+}
+
+func strGen(s pbt.Src, thorough bool) StrCase {
+	return StrCase{Calls: pbt.Seq(s, 2, 12, func(s pbt.Src) StrCall {
+		return StrCall{H: s.Intn(len(strHelpers)), S: s.Intn(len(strInputs)), T: s.Intn(len(strTokens)), N: s.Intn(6)}
+	})}
+}
+
+func strProp(c StrCase, r *pbt.R) error {
+	if len(c.Calls) > 64 {
+		return nil
+	}
+	type kept struct {
+		by   string
+		live []string // the strings the helper returned (kept as they are)
+		snap []string // byte-wise copies taken when they were returned
+	}
+	var results []kept
+	// arguments are built freshly (not literals in read-only memory), and snapshotted as well
+	for i, cl := range c.Calls {
+		cl = cl.norm()
+		in := string(append([]byte(nil), strInputs[cl.S]...))
+		tok := string(append([]byte(nil), strTokens[cl.T]...))
+		var out []string
+		if err := func() (err error) {
+			defer func() {
+				if p := recover(); p != nil {
+					err = fmt.Errorf("call %d %v panicked: %v", i, cl, p)
+				}
+			}()
+			out = strHelpers[cl.H].call(in, tok, cl.N)
+			return nil
+		}(); err != nil {
+			return err
+		}
+		if in != strInputs[cl.S] || tok != strTokens[cl.T] {
+			return fmt.Errorf("call %d %v changed its argument: now %q / %q", i, cl, in, tok)
+		}
+		for j, k := range results {
+			for x := range k.live {
+				if k.live[x] != k.snap[x] {
+					return fmt.Errorf("calls %v: the string returned by call %d %s read %q when it was returned and reads %q after call %d %v", c.Calls, j, k.by, k.snap[x], k.live[x], i, cl)
+				}
+			}
+		}
+		k := kept{by: cl.String(), live: out}
+		for _, o := range out {
+			k.snap = append(k.snap, string(append([]byte(nil), o...)))
+		}
+		results = append(results, k)
+	}
+	r.NonTrivialIf(len(c.Calls) >= 2, ">= 2 calls")
+	return nil
+}
+
 func TestProp(t *testing.T) {
 	rule := fmt.Sprintf(commonRule, len(registry))
 	pbt.Run(t, "C16",
@@ -962,6 +1080,14 @@ func TestProp(t *testing.T) {
 				{A: []int{1, 2}, B: []int{}, SpareA: 0, Calls: []Call{{H: "Merge/0"}, {H: "Reverse"}}},
 				{A: []int{1}, B: []int{2}, SpareA: 3, SpareB: 3, Calls: []Call{{H: "Merge/1"}, {H: "Merge/spread"}}},
 			},
+		},
+		&pbt.Check[StrCase]{
+			Name: "strings",
+			Rule: "string helpers (Wrap, WrapAllRune, Unwrap, Pad, PadLeft, PadRight, Substr, ToLower, ToUpper, Capitalize, CamelCase, SnakeCase, KebabCase, ReverseStr, SplitAtIndex): every string a call returned is kept and compared, after every later call, with the byte-wise copy taken when it was returned " +
+				"(a Go string is only immutable as long as the library does not build it over memory that it reuses); arguments are compared as well. Enumerated: every ordered pair (thorough: triple) of helpers x 7 inputs x 4 tokens x 2 sizes; random: 2..12 calls with independent inputs. Non-trivial = >= 2 calls.",
+			Enum: strEnum, Gen: strGen, Prop: strProp,
+			OutOfEnum:  func(c StrCase, th bool) bool { return len(c.Calls) > 3 },
+			RapidQuick: 800, RapidThorough: 10000,
 		},
 	)
 }
